@@ -76,6 +76,13 @@ impl SegmentIndexWriter {
                     format!("Failed to write index to file: {}. {error}", self.file_path)
                 })
                 .map_err(|_| IggyError::CannotSaveIndexToSegment)?;
+            self.file
+                .flush()
+                .await
+                .with_error_context(|error| {
+                    format!("Failed to flush index file: {}. {error}", self.file_path)
+                })
+                .map_err(|_| IggyError::CannotSaveIndexToSegment)?;
         }
         if self.fsync {
             let _ = self.fsync().await;
